@@ -2,7 +2,8 @@
 import re
 
 from harness.props import repp_common as rc
-from harness.props.repp_common import observe, coq_case  # noqa: F401
+from harness.props import yy_common as yy
+from harness.coqlit import app
 
 ID = "C14"
 COQ_TARGETS = ["Props/C14.vo", "Corr/C14.vo"]
@@ -17,27 +18,56 @@ EXPLANATION = ("Map lengths, gap provenance and the provenance of characters car
                "groups (optional, empty and nested groups included) are theorems for every program step, match "
                "list and template.")
 ASSUMPTIONS = list(__import__("harness.props.c13", fromlist=["ASSUMPTIONS"]).ASSUMPTIONS) + [
-    "YY serialisation round trip of the token lattice is checked by the oracle on every case, not modelled",
+    "YY format: Model/YY.v models YYToken.__str__ and the regular expression of from_string as a left-to-right "
+    "scanner over ASCII; part-of-speech tags (floats) are outside the model and such cases are not sent to it",
 ]
 TRUSTED = []
 LEVEL_TEXT = ("Proof (Coq, no axioms): both offset maps of every step of every program have one entry per "
               "output position plus two sentinels, and so have the merged result maps; every output character "
               "copied from outside all matches is attributed to exactly its original position whatever was "
               "inserted/deleted before it (the net length change of every match is accounted exactly, for "
-              "every template); tokenization yields the maximal separator-free pieces (model of _tokenize). "
+              "every template); tokenization yields the maximal separator-free pieces (model of _tokenize); a token lattice "
+              "survives YY serialisation and parsing unchanged whatever its forms contain (C14_yy_roundtrip). "
               "Maps, spans and tokens are tied to delphin/repp.py by kernel-checked correspondence.")
 LEVEL_NOTE = ("Partial: the composition of provenance across several rules (mergemap) and token spans are covered by "
-              "correspondence and the tagging oracle; YY round trip is oracle-only. F9 (matched text left "
+              "correspondence and the tagging oracle. F31 (token forms were written unescaped, so a lattice with a quotation "
+              "mark or a final backslash in a form did not survive YY serialisation) was repaired by a fix: commit. F9 (matched text left "
               "out by in-order group references was not accounted) was repaired by a fix: commit.")
 TECHNIQUE = "Coq proof (length and provenance invariants of the rule loop) + kernel-checked correspondence + tagging oracle"
 DESIGN_REF = "DESIGN.md section 6, C14"
 
 
 def gen(rng, tier):
-    return rc.gen_cases(rng, tier)
+    cases = rc.gen_cases(rng, tier)
+    # the same programs on texts with quotation marks and backslashes (the YY clause)
+    extra = []
+    for c in cases:
+        if c["k"] == "repp" and c["s"] and rng.random() < 0.08:
+            t = list(c["s"])
+            for _ in range(rng.randrange(1, 3)):
+                t.insert(rng.randrange(len(t) + 1), rng.choice(['"', chr(92), '"']))
+            d = dict(c)
+            d["s"] = "".join(t)
+            extra.append(d)
+    return cases + extra + yy.gen_cases(rng, tier)
+
+
+def observe(c):
+    if c["k"] in ("yyprint", "yyparse"):
+        return yy.observe(c)
+    return rc.observe(c)
+
+
+def coq_case(c, o):
+    if c["k"] in ("yyprint", "yyparse"):
+        return yy.coq_case(c, o)
+    t = rc.coq_case(c, o)
+    return None if t is None else app("CR", t)
 
 
 def nontrivial(c):
+    if c["k"] in ("yyprint", "yyparse"):
+        return yy.nontrivial(c)
     if c["k"] != "repp":
         return False
     return any(re.search(r["pat"], c["s"]) for r in rc.rules_of(c["prog"]))
@@ -96,6 +126,8 @@ def _tagged(items, tagged, active):
 
 
 def oracle(c):
+    if c["k"] in ("yyprint", "yyparse"):
+        return yy.oracle(c)
     if c["k"] != "repp":
         return None
     from delphin.tokens import YYTokenLattice
@@ -122,7 +154,8 @@ def oracle(c):
         return "tokens %r are not the maximal separator-free pieces of %r" % (
             [t.form for t in lat.tokens], res.string)
     if YYTokenLattice.from_string(str(lat)) != lat:
-        return "the token lattice does not survive YY serialisation"
+        return "the token lattice of %r (forms %r) does not survive YY serialisation" % (
+            s, [t.form for t in lat.tokens])
     tagged = _tagged(prog, [(ch, i) for i, ch in enumerate(s)], c["active"])
     if "".join(ch for ch, _ in tagged) != res.string:
         return None   # string semantics differ: that is C13's business
